@@ -252,6 +252,18 @@ example : hist_okR (run (Q.new .pq) [.push ⟨1, 0⟩ 1, .push ⟨2, 0⟩ 2, .ge
 
 end Examples
 
+
+/-- **C04, the read-only unchecked sites** (`peek_min` 327, `peek_max` 328 — they are observations, not operations of the
+history alphabet): after every history from `new()`, leaked guards included (so the queue may be disordered), both peeks
+return normally; `peek_max` performs at most one comparison. -/
+theorem C04_peeks_after_history (ops : List (Op P)) (hl : ∀ op ∈ ops, op.Legal) (k : Kind) :
+    ∃ q' outs, run (Q.new k) ops = .ok (q', outs) ∧
+      (∃ r, DQ.peekMin q'.s = .ok r) ∧ (∃ n r, DQ.peekMax q'.s = .ok (q'.s.tick n, r) ∧ n ≤ 1) := by
+  obtain ⟨q', outs, h1, _, h3⟩ := C04_from_any_wf ops (hist_new_wf k) hl
+  obtain ⟨r, hr, _⟩ := DQ.peekMin_safe (s := q'.s) h3
+  obtain ⟨n, r', hr', hn, _⟩ := DQ.peekMax_safe (s := q'.s) h3
+  exact ⟨q', outs, h1, ⟨r, hr⟩, ⟨n, r', hr', hn⟩⟩
+
 end PQ
 
 #print axioms PQ.C04_from_any_wf
@@ -263,3 +275,4 @@ end PQ
 #print axioms PQ.C04_capacity_exactly
 #print axioms PQ.C04_leaked_iterMut
 #print axioms PQ.C04_debug_after_history
+#print axioms PQ.C04_peeks_after_history
